@@ -18,7 +18,9 @@ class C02(C01):
 
     def gen(self, tier, rng):
         quick = tier == "quick"
-        for (retries, tmo_s, n, opts) in itertools.product((0, 1, 2), (1, 2), (0, 512, 1100), ((), (("timeout", None),))):
+        for (ci, (retries, tmo_s, n, opts)) in enumerate(itertools.product((0, 1, 2), (1, 2), (0, 512, 1100),
+                                                                         ((), (("timeout", None),)))):
+            fa = [(0, 1, 2), (0, 1, 4), (0, 2, 4)][ci % 3]      # two of the foreign address kinds per configuration
             if quick and retries == 0 and n == 1100:
                 continue
             tm = tmo_s * T.TICKS
@@ -26,10 +28,10 @@ class C02(C01):
             content = bytes(i % 251 for i in range(n))
             full_pk = [p for (_, p) in T.PACKET_ALPHABET]
             if quick:
-                plans = [(2, [0, 1, tm - 1, tm, tm + 1], (0, 1, 2), full_pk[:9], 0.9)]
+                plans = [(2, [0, 1, tm - 1, tm, tm + 1], fa, full_pk[:9], 0.9)]
             else:
-                plans = [(2, T.time_steps(tm), (0, 1, 2), full_pk, 0.9),
-                         (3, [0, tm - 1, tm, tm + 1], (0, 1), full_pk[:3] + [full_pk[4], full_pk[8]], 0.9)]
+                plans = [(2, T.time_steps(tm), fa, full_pk, 0.9),
+                         (3, [0, tm - 1, tm, tm + 1], fa[:2], full_pk[:3] + [full_pk[4], full_pk[8]], 0.9)]
             for (L, steps, addrs, pk, skip) in plans:
                 for k in range(0, L + 1):
                     for combo in itertools.product(itertools.product(steps, addrs, pk), repeat=k):
@@ -52,7 +54,7 @@ class C02(C01):
             ev = []
             for _k in range(rng.randrange(0, 12)):
                 t += rng.choice(T.time_steps(tm) + [0, 0, 3])
-                ev.append((t, 0 if rng.random() < 0.8 else rng.choice([1, 2, 3]), rng.choice(T.PACKET_ALPHABET)[1]))
+                ev.append((t, 0 if rng.random() < 0.8 else rng.choice([1, 2, 3, 4]), rng.choice(T.PACKET_ALPHABET)[1]))
             yield T.mk_case(bytes(i % 251 for i in range(n)), [], options=options, default_tmo=dflt,
                             retries=retries, events=ev)
         for _ in range(200 if quick else 3000):
